@@ -157,6 +157,14 @@ func runC20(c c20Case) vh.Result {
 		res.Label("explicit-port")
 	}
 	ct := xmpp.NewClientTransport(xmpp.TransportConfiguration{Address: addr, Domain: "example.org"})
+	// the same through the constructor an application uses
+	var nct xmpp.Transport
+	if cl, err := xmpp.NewClient(&xmpp.Config{TransportConfiguration: xmpp.TransportConfiguration{Address: addr}, Jid: "user@example.org", Credential: xmpp.Password("p")}, xmpp.NewRouter(), func(error) {}); err != nil {
+		res.Fail("newclient-refuses-address", "NewClient with Address %q failed: %v", addr, err)
+		return res
+	} else {
+		nct = xmpp.VerifGetTransport(cl)
+	}
 	kt, kerr := xmpp.NewComponentTransport(xmpp.TransportConfiguration{Address: addr, Domain: "example.org"})
 	if c.Kind == "ws" || c.Kind == "wss" {
 		if c.WSRest != "" {
@@ -168,6 +176,11 @@ func runC20(c c20Case) vh.Result {
 			res.Fail("ws-not-selected", "NewClientTransport(%q) returned %T, expected the WebSocket transport", addr, ct)
 		} else if w.Config.Address != addr {
 			res.Fail("ws-address-changed", "WebSocket transport address %q, given %q", w.Config.Address, addr)
+		}
+		if w2, ok := nct.(*xmpp.WebsocketTransport); !ok {
+			res.Fail("ws-not-selected", "NewClient with Address %q uses %T, expected the WebSocket transport", addr, nct)
+		} else if w2.Config.Address != addr {
+			res.Fail("ws-address-changed", "NewClient: WebSocket transport address %q, given %q", w2.Config.Address, addr)
 		}
 		if kerr == nil || !errors.Is(kerr, xmpp.ErrTransportProtocolNotSupported) || kt != nil {
 			res.Fail("ws-component-accepted", "NewComponentTransport(%q) = %T, %v; expected ErrTransportProtocolNotSupported", addr, kt, kerr)
@@ -198,6 +211,7 @@ func runC20(c c20Case) vh.Result {
 		}
 	}
 	judge("NewClientTransport", ct)
+	judge("NewClient", nct)
 	if kerr != nil {
 		res.Fail("component-refused", "NewComponentTransport(%q) failed: %v", addr, kerr)
 	} else {
@@ -208,7 +222,7 @@ func runC20(c c20Case) vh.Result {
 
 var c20 = vh.Define(&vh.Def[c20Case]{
 	Property: "C20", Name: "address",
-	Rule: "hosts = DNS names (1-4 labels, digits, hyphens, optional trailing dot), IPv4 literals, IPv6 literals in 8 shapes (::, ::1, full, compressed middle/leading/trailing, IPv4-mapped, zoned; either case) bracketed or bare, x port absent / present (0-65535, weighted to well-known values), and ws:// / wss:// URLs with optional port and path, in half of them with a host part other than a DNS name (IPv4, IPv6 bracketed / bare / zoned, and 15 shapes a strict URL parser refuses: the scheme alone selects the transport); bare IPv6 followed by :port is excluded and counted; oracle = net.SplitHostPort of the address the returned transport dials, host unchanged, port kept or 5222, transport type per scheme, components refuse ws/wss with ErrTransportProtocolNotSupported; non-trivial = IPv6 host or explicit port",
+	Rule: "hosts = DNS names (1-4 labels, digits, hyphens, optional trailing dot), IPv4 literals, IPv6 literals in 8 shapes (::, ::1, full, compressed middle/leading/trailing, IPv4-mapped, zoned; either case) bracketed or bare, x port absent / present (0-65535, weighted to well-known values), and ws:// / wss:// URLs with optional port and path, in half of them with a host part other than a DNS name (IPv4, IPv6 bracketed / bare / zoned, and 15 shapes a strict URL parser refuses: the scheme alone selects the transport); bare IPv6 followed by :port is excluded and counted; oracle = net.SplitHostPort of the address the transport dials (as returned by NewClientTransport / NewComponentTransport, and as built into a Client by NewClient), host unchanged, port kept or 5222, transport type per scheme, components refuse ws/wss with ErrTransportProtocolNotSupported; non-trivial = IPv6 host or explicit port",
 	Quick: 100000, Thorough: 4000000,
 	Gen: genC20, Run: runC20,
 })
